@@ -1,15 +1,15 @@
 (* C06 — the transformer as a state machine over the public API (definitions only).
    The member universe, the reset chain, the doTransform statement list, the catch tables and the
    error-buffer idioms come from GenApi.v (regenerated from /repo on every run). *)
-From Coq Require Import List String ZArith Bool Arith.
-Require Import XV.GenApi.
+From Coq Require Import List ZArith Bool Arith.
+Require Import XV.ApiName XV.GenApi.
 Import ListNotations.
-Open Scope string_scope.
+Open Scope name_scope.
 
 (* ------------------------------------------------------------------------------------------ *)
 (* members and their AUDITED classification                                                     *)
 
-Definition mid := (mclass * string)%type.
+Definition mid := (mclass * name)%type.
 
 Definition mclass_eqb (a b : mclass) : bool :=
   match a, b with
@@ -18,7 +18,7 @@ Definition mclass_eqb (a b : mclass) : bool :=
   | _, _ => false
   end.
 
-Definition mid_eqb (a b : mid) : bool := mclass_eqb (fst a) (fst b) && String.eqb (snd a) (snd b).
+Definition mid_eqb (a b : mid) : bool := mclass_eqb (fst a) (fst b) && name_eqb (snd a) (snd b).
 
 Inductive cat :=
 | PerTransformation   (* state of one transformation: must be back to its initial value afterwards *)
@@ -134,7 +134,7 @@ Definition is_per_transformation (m : mid) : bool :=
 (* ------------------------------------------------------------------------------------------ *)
 (* the reset chain as coded                                                                    *)
 
-Definition mem_str (s : string) (l : list string) : bool := existsb (String.eqb s) l.
+Definition mem_str (s : name) (l : list name) : bool := existsb (name_eqb s) l.
 
 Definition chain_cleared : list mid :=
   map (pair CSecd) secd_reset_clears
@@ -179,9 +179,9 @@ Definition pre_touches : bool := existsb is_touch dotransform_pre_stmts.
 
 (* statement k of the try block throws (possibly after partly executing); None = no throw *)
 Definition executed (abort : option nat) : nat :=
-  match abort with Some k => S k | None => List.length dotransform_try_stmts end.
+  match abort with Some k => S k | None => length dotransform_try_stmts end.
 Definition constructed (abort : option nat) : nat :=
-  match abort with Some k => k | None => List.length dotransform_try_stmts end.
+  match abort with Some k => k | None => length dotransform_try_stmts end.
 
 Definition ctx_touched (abort : option nat) : bool :=
   pre_touches || existsb is_touch (firstn (executed abort) dotransform_try_stmts).
@@ -204,7 +204,7 @@ Definition transform_residue (abort : option nat) (dirt : list mid) : list mid :
 Record errbuf := { eb_store : list nat; eb_size : nat }.
 
 Definition eb_init : errbuf := {| eb_store := [0]; eb_size := 1 |}.          (* m_errorMessage(1, '\0') *)
-Definition eb_set (m : list nat) : errbuf := {| eb_store := m ++ [0]; eb_size := S (List.length m) |}.
+Definition eb_set (m : list nat) : errbuf := {| eb_store := m ++ [0]; eb_size := S (length m) |}.
 Definition eb_clear_push (e : errbuf) : errbuf := {| eb_store := 0 :: tl (eb_store e); eb_size := 1 |}.
 (* XalanVector::resize(1, '\0'): shrinks without touching element 0; grows by filling *)
 Definition eb_resize1 (e : errbuf) : errbuf :=
@@ -230,16 +230,16 @@ Definition last_error (e : errbuf) : list nat := cstr (eb_store e).
 Inductive exn := EXSL | ESAXParse | ESAX | EXML | EDOM.
 
 (* audited C++ hierarchy: SAXParseException derives from SAXException; the others are unrelated *)
-Definition exn_matches (e : exn) (clause : string) : bool :=
+Definition exn_matches (e : exn) (clause : name) : bool :=
   match e with
-  | EXSL => String.eqb clause "XSLException"
-  | ESAXParse => String.eqb clause "SAXParseException" || String.eqb clause "SAXException"
-  | ESAX => String.eqb clause "SAXException"
-  | EXML => String.eqb clause "XMLException"
-  | EDOM => String.eqb clause "XalanDOMException"
+  | EXSL => name_eqb clause "XSLException"
+  | ESAXParse => name_eqb clause "SAXParseException" || name_eqb clause "SAXException"
+  | ESAX => name_eqb clause "SAXException"
+  | EXML => name_eqb clause "XMLException"
+  | EDOM => name_eqb clause "XalanDOMException"
   end.
 
-Fixpoint status_of (tab : list (string * Z)) (e : exn) : option Z :=
+Fixpoint status_of (tab : list (name * Z)) (e : exn) : option Z :=
   match tab with
   | [] => None
   | (c, z) :: t => if exn_matches e c then Some z else status_of t e
@@ -332,7 +332,7 @@ Definition add_residue (s : state) (r : list mid) : state :=
      st_residue := r ++ st_residue s; st_err := st_err s; st_indent := st_indent s |}.
 
 (* a call that empties the message with idiom i and ends with outcome o under catch table tab *)
-Definition finish_call (i : err_idiom) (tab : list (string * Z)) (s : state) (o : outcome) : state * option Z :=
+Definition finish_call (i : err_idiom) (tab : list (name * Z)) (s : state) (o : outcome) : state * option Z :=
   let s1 := with_err s (eb_apply i (st_err s)) in
   match o with
   | Ok => (s1, Some 0%Z)
@@ -551,7 +551,7 @@ Inductive osop := OsGet | OsRelease | OsWrite (v : nat).   (* OsWrite: the user 
 Definition os_step (s : ostack) (o : osop) : ostack * option nat :=
   match o with
   | OsGet =>
-      if Nat.eqb (List.length (os_pool s)) (os_depth s)
+      if Nat.eqb (length (os_pool s)) (os_depth s)
       then ({| os_pool := os_pool s ++ [0]; os_depth := S (os_depth s) |}, Some 0)
       else ({| os_pool := os_pool s; os_depth := S (os_depth s) |}, nth_error (os_pool s) (os_depth s))
   | OsRelease =>
